@@ -62,6 +62,36 @@ theorem lines_read_back (L : Nat) (lines : List Bytes) (h : ∀ l ∈ lines, nl 
     splitNl (bufferedAppend L lines).flatten = (lines, []) := by
   rw [flushes_concat, splitNl_withNl lines h]
 
+/-! ## packing the arguments of a call -/
+
+/-- formatting state set by a manipulator argument acts on the LATER arguments of the same call … -/
+theorem pack_append (st : Fmt) (a b : List Tok) :
+    packFrom st (a ++ b) =
+      ((packFrom st a).1 ++ (packFrom (packFrom st a).2 b).1, (packFrom (packFrom st a).2 b).2) := by
+  induction a generalizing st with
+  | nil => simp [packFrom]
+  | cons t ts ih => simp [packFrom, ih, List.append_assoc]
+
+/-- … and on nothing else: whatever calls were made before or after on the same object (with
+`std::hex`, `std::boolalpha`, … among their arguments), the line a call writes is the text a
+freshly constructed stream produces for that call's own arguments -/
+theorem line_independent_of_history (before after : List (List Tok)) (c : List Tok) :
+    (linesOf (before ++ c :: after))[before.length]? = some (pack c) := by
+  simp [linesOf]
+
+/-- string arguments are concatenated unchanged -/
+theorem pack_strings (bs : List Bytes) : pack (bs.map Tok.str) = bs.flatten := by
+  unfold pack
+  generalize Fmt.init = st
+  induction bs with
+  | nil => rfl
+  | cons b bs ih => simp [packFrom, emit, ih]
+
+/-- `("h=", std::hex, 255)` is `h=ff`; a later `(255, true)` is `2551`, not `ff` / `true` -/
+example : pack [.str [104, 61], .hex, .nat 255] = [104, 61, 102, 102] ∧
+    linesOf [[.hex, .boolalpha, .nat 255], [.nat 255, .bool true]] = [[102, 102], [50, 53, 53, 49]] := by
+  refine ⟨?_, ?_⟩ <;> simp [linesOf, pack, packFrom, emit, Fmt.init, digitsIn, digitChar] <;> decide
+
 /-! ## open modes -/
 
 /-- append on: the old content stays ahead of the new lines -/
